@@ -88,7 +88,7 @@ struct DiskEngine : Engine {
         int nread = (int)cfg.range(1, 3);
         for (int i = 0; i < nread; ++i) {
             KV k; k.set("how", (int64_t)cfg.below(3)).set("open", cfg.chance(0.5) ? "fp" : "name").set("raw", cfg.chance(0.4) ? 1 : 0).set("filter", cfg.chance(0.45) ? (int64_t)cfg.below(NFILTERS) : 0)
-             .set("fvia", (int64_t)cfg.below(3)).set("maxpk", cfg.chance(0.2) ? (int64_t)cfg.range(1, 10) : 0).set("stopat", cfg.chance(0.15) ? (int64_t)cfg.range(1, 10) : 0).set("stopvia", (int64_t)root.fork("stopvia").below(2)).set("throwat", cfg.chance(0.2) ? (int64_t)cfg.range(1, 8) : 0).set("throwkind", (int64_t)cfg.below(2)).set("cont", cfg.chance(0.5) ? 1 : 0);
+             .set("fvia", (int64_t)cfg.below(3)).set("maxpk", cfg.chance(0.2) ? (int64_t)cfg.range(1, 10) : 0).set("stopat", cfg.chance(0.15) ? (int64_t)cfg.range(1, 10) : 0).set("stopvia", (int64_t)root.fork("stopvia").below(2)).set("method", (int64_t)root.fork("method").below(4)).set("snaplen", (int64_t)root.fork("snaplen").below(5)).set("throwat", cfg.chance(0.2) ? (int64_t)cfg.range(1, 8) : 0).set("throwkind", (int64_t)cfg.below(2)).set("cont", cfg.chance(0.5) ? 1 : 0);
             p.steps.push_back("read " + k.line());
         }
         return p;
@@ -205,12 +205,14 @@ struct DiskEngine : Engine {
                 std::unique_ptr<FileSniffer> sn;
                 simdisk::read_view = &view;
                 SnifferConfiguration conf; bool filter_in_ctor = false;
+                // frames are pulled with pcap_loop (default, or set explicitly) or pcap_dispatch, chosen through the configuration or on the sniffer
+                const int method = (int)k.num("method", 0); if (method == 1) conf.set_pcap_sniffing_method(pcap_dispatch); else if (method == 2) conf.set_pcap_sniffing_method(pcap_loop);
                 if (!filt.empty() && filter_usable && fvia == 0) { conf.set_filter(filt); filter_in_ctor = true; }
                 if (byname) { if (!filt.empty() && filter_usable && fvia == 1) { sn.reset(new FileSniffer(path, filt)); filter_in_ctor = true; } else sn.reset(new FileSniffer(path, conf)); }
                 else { FILE* fp = simdisk::open(path, "rb", &view); if (!filt.empty() && filter_usable && fvia == 1) { sn.reset(new FileSniffer(fp, filt)); filter_in_ctor = true; } else sn.reset(new FileSniffer(fp, conf)); }
                 simdisk::read_view = 0; opened = true;
                 if (!filt.empty() && filter_usable && !filter_in_ctor) { if (!sn->set_filter(filt)) { if (first_damage < 24) { st.inc("probe.filter_rejected_on_damaged_header"); filter_usable = false; } else return Verdict::bad("disk:set-filter-failed", "set_filter rejected an expression libpcap compiles: " + filt); } }
-                sn->set_extract_raw_pdus(raw);
+                sn->set_extract_raw_pdus(raw); if (method == 3) sn->set_pcap_sniffing_method(pcap_dispatch); if (method == 1 || method == 3) st.inc("probe.pcap_dispatch_method");
                 if (header_ok && first_damage >= 24) { st.inc("chk.link_type"); if (sn->link_type() != dlt) return Verdict::bad("disk:link-type", fmt("link_type()=%d for a file written with link type %d", sn->link_type(), dlt)); }
                 auto take = [&](PDU& pdu, const Timestamp& ts) { Got g; g.sec = (uint32_t)ts.seconds(); g.usec = (uint32_t)ts.microseconds(); g.type = (int)pdu.pdu_type(); g.size = pdu.size(); if (raw) { RawPDU* r = pdu.find_pdu<RawPDU>(); if (r) g.bytes.assign(r->payload().begin(), r->payload().end()); } got.push_back(g); };
                 if (how == 0) { for (;;) { Packet pk(sn->next_packet()); if (!pk.pdu()) break; take(*pk.pdu(), pk.timestamp()); if (got.size() > recs.size() + 5) break; } }
@@ -266,13 +268,15 @@ struct DiskEngine : Engine {
             // OfflinePacketFilter must agree with libpcap on every stored frame that parses (fvia == 2)
             if (!filt.empty() && filter_usable && fvia == 2 && header_ok) {
                 try {
-                    std::unique_ptr<OfflinePacketFilter> ofp;
-                    switch (dlt) { case DLT_EN10MB: ofp.reset(new OfflinePacketFilter(filt, DataLinkType<EthernetII>())); break; case DLT_LINUX_SLL: ofp.reset(new OfflinePacketFilter(filt, DataLinkType<SLL>())); break; case DLT_PPI: ofp.reset(new OfflinePacketFilter(filt, DataLinkType<PPI>())); break;
+                    std::unique_ptr<OfflinePacketFilter> ofp; static const unsigned snaps[5] = { 65535u, 65535u, 0x7fffffffu, 0x80000000u, 0xffffffffu }; const int snapsel = (int)k.num("snaplen", 0); const unsigned snap = snaps[snapsel];
+                    if (snapsel) { st.inc("probe.offline_filter_explicit_snaplen"); switch (dlt) { case DLT_EN10MB: ofp.reset(new OfflinePacketFilter(filt, DataLinkType<EthernetII>(), snap)); break; case DLT_LINUX_SLL: ofp.reset(new OfflinePacketFilter(filt, DataLinkType<SLL>(), snap)); break; case DLT_PPI: ofp.reset(new OfflinePacketFilter(filt, DataLinkType<PPI>(), snap)); break;
+                                   case DLT_IEEE802_11: ofp.reset(new OfflinePacketFilter(filt, DataLinkType<Dot11>(), snap)); break; case DLT_IEEE802_11_RADIO: ofp.reset(new OfflinePacketFilter(filt, DataLinkType<RadioTap>(), snap)); break; case DLT_RAW: ofp.reset(new OfflinePacketFilter(filt, DataLinkType<IP>(), snap)); break; default: break; } }
+                    else switch (dlt) { case DLT_EN10MB: ofp.reset(new OfflinePacketFilter(filt, DataLinkType<EthernetII>())); break; case DLT_LINUX_SLL: ofp.reset(new OfflinePacketFilter(filt, DataLinkType<SLL>())); break; case DLT_PPI: ofp.reset(new OfflinePacketFilter(filt, DataLinkType<PPI>())); break;
                                    case DLT_IEEE802_11: ofp.reset(new OfflinePacketFilter(filt, DataLinkType<Dot11>())); break; case DLT_IEEE802_11_RADIO: ofp.reset(new OfflinePacketFilter(filt, DataLinkType<RadioTap>())); break; case DLT_RAW: ofp.reset(new OfflinePacketFilter(filt, DataLinkType<IP>())); break; default: break; }
                     if (!ofp) throw invalid_pcap_filter("no DataLinkType for this link type");
                     OfflinePacketFilter of0(*ofp), of("len > 0", DataLinkType<EthernetII>()); of = of0; of = *&of;      // copy construction, assignment over a filter for another link type, self-assignment
                     ofp.reset();
-                    pcap_t* d2 = pcap_open_dead(dlt, 65535); bpf_program pr2; if (d2 && pcap_compile(d2, &pr2, filt.c_str(), 1, PCAP_NETMASK_UNKNOWN) == 0) {
+                    pcap_t* d2 = pcap_open_dead(dlt, (int)snap); bpf_program pr2; if (d2 && pcap_compile(d2, &pr2, filt.c_str(), 1, PCAP_NETMASK_UNKNOWN) == 0) {
                         for (auto& r : recs) { std::unique_ptr<PDU> pdu; try { pdu.reset(construct(dlt, r.data)); } catch (malformed_packet&) {} if (!pdu) continue; PDU::serialization_type s; try { s = pdu->serialize(); } catch (std::exception&) { st.inc("probe.parsed_frame_not_serializable"); continue; } /* C02's subject, not judged here */ if (s.empty()) continue;
                             pcap_pkthdr h; memset(&h, 0, sizeof h); h.caplen = h.len = (bpf_u_int32)s.size(); bool ref = pcap_offline_filter(&pr2, &h, s.data()) != 0; bool sut = of.matches_filter(*pdu); st.inc("chk.offline_filter");
                             if (ref != sut) { pcap_freecode(&pr2); pcap_close(d2); return Verdict::bad("disk:offline-filter-disagrees", fmt("filter '%s' on a %zu-byte frame: OfflinePacketFilter=%d libpcap=%d", filt.c_str(), s.size(), sut, ref)); } }
